@@ -215,8 +215,12 @@ MUTANTS = [
     ("update_error_tears_down", "C10", "yabgp/core/protocol.py",
      "            LOG.error('[%s] Update message error: sub error=%s', self.factory.peer_addr, result['sub_error'])\n            self.fsm.update_received()",
      "            LOG.error('[%s] Update message error: sub error=%s', self.factory.peer_addr, result['sub_error'])\n            self.fsm.header_error(1)"),
-    ("retry_without_abort", "C12", "yabgp/core/factory.py",
-     "            self.stop_connecting()\n            connector = self.connector = reactor.connectTCP(", "            connector = self.connector = reactor.connectTCP("),
+    ("abort_checks_wrong_connector_state", "C12", "yabgp/core/factory.py",
+     "        if connector is not None and connector.state == 'connecting':", "        if connector is not None and connector.state == 'connected':"),
+    ("close_without_abort", "C13", "yabgp/core/fsm.py",
+     "        if self.bgp_peering:\n            # a pending connection attempt is dropped as well\n            self.bgp_peering.stop_connecting()\n", ""),
+    ("late_close_resets_state", "C01", "yabgp/core/factory.py",
+     "                if self.fsm.state != bgp_cons.ST_CONNECT:\n                    self.fsm.state = bgp_cons.ST_IDLE", "                self.fsm.state = bgp_cons.ST_IDLE"),
     ("stop_keeps_automatic_start", "C13", "yabgp/core/fsm.py",
      "        self.allow_automatic_start = False\n        self.state = bgp_cons.ST_IDLE\n        return True", "        self.state = bgp_cons.ST_IDLE\n        return True"),
     ("no_cease_on_stop", "C13", "yabgp/core/fsm.py",
